@@ -3,7 +3,7 @@ from .. import world, driver, sut
 from ..worldprop import base_outcome, completion, close, REAL_VS_STUB  # noqa
 
 ID = "C02"
-RUNS = {"quick": 8000, "thorough": 220000}
+RUNS = {"quick": 20000, "thorough": 220000}
 BUDGET = {"quick": 45, "thorough": 780}
 RULE = ("worlds with heterogeneous voltages, all battery models, noise tapes, scripted schedules addressing vacant "
         "stations, 20% StochasticNetwork worlds; non-trivial = >=1 period with a non-zero rate strictly below the pilot "
